@@ -39,7 +39,8 @@ META = {
                    "buildable ones do not, nrewind >= 1. Engine rows are related to the positioned set by C16."),
     'rule': ("cases = residue graphs of 2-8 residues (paths, stars, random trees, one ring) x pre-positioned subsets x nrewind in "
              "{1,2,3,5} x maxiter in {1,2,3,50} x outcome scripts (random strings; all strings up to the bound in the thorough tier); "
-             "non-trivial = at least one failure followed by a rewind or an abandoned attempt; distinct by (graph, flags, parameters, script)"),
+             "non-trivial = at least one failure followed by a rewind or an abandoned attempt; distinct by (graph, flags, parameters, script)"
+             "; directed / added families (waves 10-12): copies of one chain in a real BuildSystem (first copy partly supplied, scripted failures; 5001+ positioned residues before the chains)"),
 }
 
 
